@@ -1,5 +1,5 @@
 // C17 — async adaptors (tokio AsyncRead / AsyncWrite / AsyncBufRead, futures Stream): transparent and exact.
-// @file-encodes iter::ProgressBarIter as tokio::io::AsyncRead::poll_read, tokio::io::AsyncWrite::{poll_write,poll_flush,poll_shutdown}, tokio::io::AsyncBufRead::{poll_fill_buf,consume}, futures_core::Stream::poll_next
+// @file-encodes iter::ProgressBarIter as tokio::io::AsyncSeek::{start_seek,poll_complete}, tokio::io::AsyncRead::poll_read, tokio::io::AsyncWrite::{poll_write,poll_flush,poll_shutdown}, tokio::io::AsyncBufRead::{poll_fill_buf,consume}, futures_core::Stream::poll_next
 // @file-assumes inner objects are harness mocks returning symbolic Pending / Ready(Ok) / Ready(Err); no executor: the poll methods are called directly with a no-op waker; hidden ProgressBar (rig); AtomicPosition::allow replaced by "refuse" (see c17.rs)
 #[cfg(all(kani, feature = "tokio", feature = "futures"))]
 mod verif_c17_async {
@@ -12,7 +12,7 @@ mod verif_c17_async {
     use crate::ProgressDrawTarget;
     use std::task::Waker;
     use std::time::Instant;
-    use tokio::io::{AsyncBufRead, AsyncRead, AsyncWrite};
+    use tokio::io::{AsyncBufRead, AsyncRead, AsyncSeek, AsyncWrite};
 
     fn never_allow(_p: &AtomicPosition, _now: Instant) -> bool {
         false
@@ -189,6 +189,67 @@ mod verif_c17_async {
         }
         kani::cover!(fills == 2 && consumed > 0);
         kani::cover!(consumed == 12);
+        std::mem::forget(w);
+    }
+
+    static mut LASTK: (u8, u64) = (0, 0);
+    impl AsyncSeek for MockA {
+        fn start_seek(self: Pin<&mut Self>, _position: SeekFrom) -> io::Result<()> {
+            if kani::any() {
+                Ok(())
+            } else {
+                Err(io::Error::from(io::ErrorKind::InvalidInput))
+            }
+        }
+        fn poll_complete(self: Pin<&mut Self>, _cx: &mut Context<'_>) -> Poll<io::Result<u64>> {
+            let v: u8 = kani::any();
+            match v % 3 {
+                0 => {
+                    unsafe { LASTK = (0, 0) };
+                    Poll::Pending
+                }
+                1 => {
+                    let off: u64 = kani::any();
+                    unsafe { LASTK = (1, off) };
+                    Poll::Ready(Ok(off))
+                }
+                _ => {
+                    unsafe { LASTK = (2, 0) };
+                    Poll::Ready(Err(io::Error::from(io::ErrorKind::Interrupted)))
+                }
+            }
+        }
+    }
+
+    // @harness id=C17 tier=quick timeout=3000 mem=12 features=tokio,futures
+    // @bounds tokio AsyncSeek: start_seek (Start / End / Current with symbolic offsets; inner Ok or Err) followed by one poll_complete answering Pending, Ready(Ok(offset over u64)) or Ready(Err): same results; a completed seek sets the position to the new offset, Pending / errors leave it unchanged
+    #[kani::proof]
+    #[kani::unwind(10)]
+    #[kani::stub(crate::state::AtomicPosition::allow, never_allow)]
+    //@STUBS std now noterm nomulti norender rlany noweight
+    fn c17_tokio_seek_sets_position() {
+        let p0: u64 = kani::any();
+        let mut w = ProgressBarIter { it: MockA { consumed: 0 }, progress: bar(p0) };
+        let mut cx = Context::from_waker(Waker::noop());
+        let mode: u8 = kani::any();
+        let from = match mode % 3 {
+            0 => SeekFrom::Start(kani::any()),
+            1 => SeekFrom::End(kani::any()),
+            _ => SeekFrom::Current(kani::any()),
+        };
+        let started = Pin::new(&mut w).start_seek(from);
+        assert!(pos_of(&w) == p0);
+        if started.is_ok() {
+            let r = Pin::new(&mut w).poll_complete(&mut cx);
+            let l = unsafe { LASTK };
+            match r {
+                Poll::Pending => assert!(l.0 == 0 && pos_of(&w) == p0),
+                Poll::Ready(Ok(off)) => assert!(l.0 == 1 && off == l.1 && pos_of(&w) == off),
+                Poll::Ready(Err(_)) => assert!(l.0 == 2 && pos_of(&w) == p0),
+            }
+            kani::cover!(l.0 == 1 && l.1 != p0);
+        }
+        kani::cover!(started.is_err());
         std::mem::forget(w);
     }
 
